@@ -23,9 +23,10 @@ Ev == Trace[l]
 IsEv(e) == l <= Len(Trace) /\ Trace[l].ev = e
 Consume == l' = l + 1
 
-Init == /\ Trace[1].ev = "begin" /\ P!InitWith(Trace[1].cfg) /\ l = 2
+Cfg(c) == [c EXCEPT !.Skip = {c.Skip[i] : i \in 1..Len(c.Skip)}]       \* JSON carries the set as a list
+Init == /\ Trace[1].ev = "begin" /\ P!InitWith(Cfg(Trace[1].cfg)) /\ l = 2
         /\ TLCSet(1, 2)
-TReset == IsEv("begin") /\ P!ResetTo(Ev.cfg) /\ Consume
+TReset == IsEv("begin") /\ P!ResetTo(Cfg(Ev.cfg)) /\ Consume
 TReady == /\ IsEv("ready") /\ Consume
           /\ \E t \in P!Workers(cfg) :
                IF Ev.stage = 1 THEN w1[t].rec = Ev.idx /\ P!W1Ready(t)
